@@ -86,6 +86,9 @@ m("c04-decoder-returns-other-address", "C04", "precompiles/distribution/types.go
   "\treturn msg, delegatorAddress, nil\n}\n\n// NewMsgWithdrawValidatorCommission", "\treturn msg, common.HexToAddress(validatorAddress), nil\n}\n\n// NewMsgWithdrawValidatorCommission", "message-names-returned-address",
   "decoder of withdrawDelegatorRewards returns an address unrelated to msg.DelegatorAddress")
 
+m("c04-module-origin-allowed", "C04", "precompiles/common/precompile.go",
+  "\tif isTransaction(method.Name) && evm.Origin == erc20types.ModuleAddress {", "\tif isTransaction(method.Name) && evm.Origin == erc20types.ModuleAddress && readOnly {", "origin-is-not-the-erc20-module",
+  "the refusal of the module account as origin applies to read-only frames only")
 # ---------------- C05 ----------------
 m("c05-commit-always", "C05", "x/evm/keeper/state_transition.go",
   "\t\t} else if commit != nil {", "\t\t}\n\t\tif commit != nil {", "commit-only-if-hooks-ok")
@@ -118,6 +121,9 @@ m("c06-grant-grantable", "C06", "app/ante/handler_options.go",
   "\t\t\tsdk.MsgTypeURL(&authz.MsgGrant{}),\n\t\t),\n\t\tante.NewSetUpContextDecorator(),\n\t\tante.NewValidateBasicDecorator(),\n\t\tante.NewTxTimeoutHeightDecorator(),\n\t\tcosmosante.NewMinGasPriceDecorator",
   "\t\t),\n\t\tante.NewSetUpContextDecorator(),\n\t\tante.NewValidateBasicDecorator(),\n\t\tante.NewTxTimeoutHeightDecorator(),\n\t\tcosmosante.NewMinGasPriceDecorator", "grant-is-not-grantable",
   "the EIP-712 route's limiter no longer bars grants of MsgGrant")
+m("c06-nested-grant-by-authorization-only", "C06", "app/ante/cosmos/authz.go",
+  "\t\t\tif grantURL := sdk.MsgTypeURL(msg); isAuthzInnerMsg && ald.isDisabledMsg(grantURL) {\n\t\t\t\treturn fmt.Errorf(\"found disabled msg type: %s\", grantURL)\n\t\t\t}\n", "", "nested-grant-looked-up-as-a-message",
+  "the MsgGrant arm looks only at the authorization's type again")
 m("c06-eip712-no-reject", "C06", "app/ante/handler_options.go",
   "func newLegacyCosmosAnteHandlerEip712(options HandlerOptions) sdk.AnteHandler {\n\treturn sdk.ChainAnteDecorators(\n\t\tcosmosante.RejectMessagesDecorator{}, // reject MsgEthereumTxs\n",
   "func newLegacyCosmosAnteHandlerEip712(options HandlerOptions) sdk.AnteHandler {\n\treturn sdk.ChainAnteDecorators(\n", "newLegacyCosmosAnteHandlerEip712#reject-first")
@@ -177,6 +183,9 @@ m("c12-no-validate", "C12", "x/ucdao/keeper/msg_server.go",
   "func (k msgServer) TransferOwnershipWithAmount(goCtx context.Context, msg *types.MsgTransferOwnershipWithAmount) (*types.MsgTransferOwnershipWithAmountResponse, error) {\n\tctx := sdk.UnwrapSDKContext(goCtx)\n\n\tif err := msg.ValidateBasic(); err != nil {\n\t\treturn nil, err\n\t}\n",
   "func (k msgServer) TransferOwnershipWithAmount(goCtx context.Context, msg *types.MsgTransferOwnershipWithAmount) (*types.MsgTransferOwnershipWithAmountResponse, error) {\n\tctx := sdk.UnwrapSDKContext(goCtx)\n", "validate-first")
 
+m("c13-coefficient-type-only", "C13", "x/coinomics/types/params.go",
+  "\tif v.Abs().GT(sdk.NewDec(1_000_000_000_000_000_000)) {\n\t\treturn fmt.Errorf(\"reward coefficient out of range: %s\", v)\n\t}\n", "\t_ = v.Abs()\n", "range-checked",
+  "the coefficient validator checks the type only")
 # ---------------- C14 ----------------
 m("c14-gov-plain-bank", "C14", "app/app.go",
   "\t\tappCodec, keys[govtypes.StoreKey], app.AccountKeeper, &haqqBankKeeper,\n\t\tstakingKeeper, app.MsgServiceRouter(), govConfig, authAddr,",
@@ -211,6 +220,10 @@ m("c16-redelegate-to-delegate", "C16", "precompiles/distribution/tx.go",
 m("c07-precompile-repanics", "C07", "precompiles/common/precompile.go",
   "\t\t\t\t*err = fmt.Errorf(\"precompile panicked: %v\", r)\n", "\t\t\t\tpanic(r)\n", "recovered-panics-stay-recovered",
   "the precompiles' deferred handler panics again for everything but out-of-gas")
+m("c07-hook-panic-escapes", "C07", "x/evm/keeper/keeper.go",
+  "\t\tif r := recover(); r != nil {\n\t\t\terr = errorsmod.Wrapf(types.ErrPostTxProcessing, \"hook panicked: %v\", r)\n\t\t}",
+  "\t\tif r := recover(); r != nil {\n\t\t\terr = errorsmod.Wrapf(types.ErrPostTxProcessing, \"hook panicked: %v\", r)\n\t\t\tpanic(r)\n\t\t}", "hook-panics-are-recovered",
+  "the hook dispatcher panics again after noting the error")
 # ---------------- C08 ----------------
 m("c08-locked-uncapped-delegated", "C08", "x/vesting/types/clawback_vesting_account.go",
   "lockedUpVestedDelegatedCoins := va.DelegatedFree.Add(va.DelegatedVesting...).Min(va.GetLockedUpVestedCoins(blockTime))",
@@ -434,6 +447,9 @@ m("c15-subbalance-zero-journals", "C15", "x/evm/statedb/state_object.go",
   "func (s *stateObject) SubBalance(amount *big.Int) {\n\tif amount.Sign() == 0 {\n\t\treturn\n\t}\n", "func (s *stateObject) SubBalance(amount *big.Int) {\n",
   "R5/C02.R3@(*x/evm/statedb.stateObject).SubBalance", "zero-value transfers journal a balance change: the sender becomes dirty and Commit writes its cached balance over precompile-made bank changes")
 
+m("c16-static-frame-runs-transactions", "C16", "precompiles/common/precompile.go",
+  "\tif readOnly && isTransaction(method.Name) {\n\t\treturn sdk.Context{}, nil, nil, uint64(0), nil, vm.ErrWriteProtection\n\t}\n", "\tif readOnly && !isTransaction(method.Name) {\n\t\t_ = vm.ErrWriteProtection\n\t}\n", "write-protection",
+  "a transaction method runs in a read-only frame (the second classification for the module-origin refusal is still there)")
 # ---------------- C17 ----------------
 m("c17-endblock-also-sets-basefee", "C17", "x/feemarket/keeper/abci.go",
   "\tk.SetBlockGasWanted(ctx, updatedGasWanted)\n", "\tk.SetBlockGasWanted(ctx, updatedGasWanted)\n\tif bf := k.CalculateBaseFee(ctx); bf != nil {\n\t\tk.SetBaseFee(ctx, bf)\n\t}\n",
